@@ -121,15 +121,15 @@ theorem removeNow_ops (o : Options) (p : Bytes) (b : Bool) {s s' : DState} {r : 
         by rw [t2, t1, List.append_assoc], ?_⟩
       intro op hop
       rcases List.mem_append.1 hop with hop | hop
-      · exact hB hM hB1 hB0 op hop
+      · exact hB hM hB1 (fun h => hB0 (h.imp_right .inl)) op hop
       · exact Or.inl (hU op hop)
     · cases h
-      exact ⟨c1, M ++ B, t1, hB hM hB1 hB0⟩
+      exact ⟨c1, M ++ B, t1, hB hM hB1 (fun h => hB0 (h.imp_right .inl))⟩
   · next e s1 h1 =>
     cases h
     obtain ⟨c1, M, B, t1, hM, hB1, -, hB0, -⟩ := backupStep_shape o b p h1
     rw [List.append_assoc] at t1
-    exact ⟨c1, M ++ B, t1, hB hM hB1 hB0⟩
+    exact ⟨c1, M ++ B, t1, hB hM hB1 (fun h => hB0 (h.imp_right .inl))⟩
 
 /-- the removal loop -/
 theorem removals_ops (o : Options) (ws : List DeferredWrite) :
